@@ -307,11 +307,30 @@ def check_lengths(ctx):
     it = ctx.pipeline()
     # between species: histogram over the same bins, x = bins[:-1]
     fs = ctx.fn(RDS)
+    its_ = ctx.entry(RDS)
     for n in ast.walk(fs.node):
         if isinstance(n, ast.Call) and norm_text(n.func).endswith('RDFData'):
             kw = {k.arg: norm_text(k.value).replace(' ', '') for k in n.keywords}
             ok = kw.get('x') == 'bins[:-1]' and kw.get('y') == 'counts'
+            if not ok:
+                # on values: both fields carry the same symbolic length (number of histogram bins = len(edges) - 1)
+                kv = {k.arg: its_.cur(k.value) for k in n.keywords if k.arg in ('x', 'y')}
+                lx, ly = (kv['x'].symlen if kv.get('x') is not None else None), (kv['y'].symlen if kv.get('y') is not None else None)
+                ok = True if (lx is not None and lx == ly and lx[0] == '-' and lx[2] == ('c', 1)) else (False if (lx is not None and ly is not None and lx != ly) else None)
+                msg = 'len(x) = len(histogram) = len(bins) - 1' if ok is not False else f'x has length {_len_text(lx)} but y has length {_len_text(ly)}'
+                ctx.ob('R3', fs, n, ok, msg)
+                continue
             ctx.ob('R3', fs, n, True if ok else None, 'len(x) = len(histogram) = len(bins) - 1')
+
+
+def _len_text(sl):
+    if sl is None:
+        return '?'
+    if sl[0] == '-':
+        return f'{_len_text(sl[1])} - {_len_text(sl[2])}'
+    if sl[0] == 'arange':
+        return f'len({sl[1]})'
+    return str(sl[1])
 
 
 def check_distances(ctx):
